@@ -3,81 +3,100 @@
 
    Vocabulary (Model/CteEnc.v): [cte_encode c es] is the text a fresh
    cte.EncoderEventReceiver writes for the event stream [es] ([None]: a call
-   panics); [delivery strict h d g]: the events [g] deliver the array with
-   header [h] and contents [d] -- as one whole-array event, or as a begin event
-   followed by chunks whose data events may split the bytes anywhere (inside
-   elements, inside UTF-8 characters, with empty data events, with zero-length
-   chunks); [chunk_equiv strict a b]: [a] and [b] are the same stream up to how
-   each array is delivered.  [strict = true] excludes exactly one thing: an
-   EMPTY data event inside a media / custom-binary array (finding
-   C23/chunking/hex-array-empty-data-event).  [col_clean c es]: the run never
-   evaluated IsAtOrigin while Writer.Column depended on how a media /
-   custom-binary array had been split (WriteHexBytes does not advance Column,
-   the separator between two data events does); the correspondence run checks
-   it on every rules-valid stream. *)
+   panics); [delivery h d g]: the events [g] deliver the array with header [h]
+   and contents [d] -- as one whole-array event, or as a begin event followed by
+   chunks whose data events may split the bytes anywhere (inside elements,
+   inside UTF-8 characters, with empty data events -- also inside media /
+   custom-binary arrays since fix bf83d88 --, with zero-length chunks);
+   [chunk_equiv a b]: [a] and [b] are the same stream up to how each array is
+   delivered.
+
+   [col_clean c es] is still a hypothesis of the general statement: WriteHexBytes
+   does not advance Writer.Column while the separator written between two
+   non-empty data events does, so Column after a media / custom-binary array
+   still depends on how the data was split; [col_clean] says IsAtOrigin was never
+   evaluated while Column was in that state.  It holds by itself for streams
+   without media / custom binary ([C23_cte_text_chunk_invariant_no_media]), and
+   the correspondence run checks it in Coq on every rules-valid stream (the
+   validator never lets a value that is written on the same line follow such an
+   array before the next line feed). *)
 From CE Require Import Model.CteEnc Proofs.CteEncProofs.
 Open Scope N_scope.
 
-(* The property as stated: ANY two deliveries of the same arrays give the same
+(* The property as stated: any two deliveries of the same arrays give the same
    text, and decoding the text and encoding the result gives the text again.
    The second half needs a model of the CTE reader ([read]) and of the
-   validator ([valid]); they are parameters here and that half is evaluated on
-   the implementation by the search oracle only. *)
+   validator ([valid]); they are parameters here.  That half is evaluated on the
+   implementation by the search oracle only, where three finding classes remain
+   open (C23/reencode/decode-error/multiline-comment-ending-in-slash,
+   C23/reencode/text-differs/big-float, C23/reencode/text-differs/big-decimal). *)
 Definition C23_full (valid : list event -> Prop) (read : bytes -> option (list event)) : Prop :=
-  chunk_invariance false /\
+  chunk_invariance /\
   (forall c es t, valid es -> cte_encode c es = Some t ->
                   exists es', read t = Some es' /\ cte_encode c es' = Some t).
 
-(* It fails on the current tree, whatever the reader: the media array 42 delivered
-   as the data events [] and [42] is written "@a/b[ 42]" instead of "@a/b[42]". *)
-Theorem C23_full_refuted : forall valid read, ~ C23_full valid read.
-Proof. exact (fun valid read H => chunk_invariance_full_refuted (proj1 H)). Qed.
-Print Assumptions C23_full_refuted.
-
-(* Same defect class, custom binary, empty data event between two bytes: "@3[35  20]". *)
-Theorem C23_full_refuted_custom_binary :
-  exists es1 es2, chunk_equiv false es1 es2 /\ col_clean default_ccfg es1 = true /\ col_clean default_ccfg es2 = true /\
-                  cte_encode default_ccfg es1 <> cte_encode default_ccfg es2.
-Proof. exact chunk_invariance_full_refuted_custom_binary. Qed.
-Print Assumptions C23_full_refuted_custom_binary.
-
-(* PARTIAL (excluded: empty data events inside media / custom-binary arrays; the
-   decode-and-re-encode half): two streams that differ only in how arrays and
-   strings are delivered give byte-identical text (or both make the encoder
-   panic), for every configuration of the array element formats, every array
-   type, every chunking and every split of the data into data events. *)
-Theorem C23_cte_text_chunk_invariant_partial :
+(* The chunk-invariance half, for every configuration of the array element
+   formats, every array type, every chunking and every split of the data into
+   data events, empty ones included: two streams that differ only in how arrays
+   and strings are delivered give byte-identical text (or both make the encoder
+   panic). *)
+Theorem C23_cte_text_chunk_invariant :
   forall c es1 es2,
-    chunk_equiv true es1 es2 -> col_clean c es1 = true -> col_clean c es2 = true ->
+    chunk_equiv es1 es2 -> col_clean c es1 = true -> col_clean c es2 = true ->
     cte_encode c es1 = cte_encode c es2.
 Proof. exact cte_text_chunk_invariant. Qed.
-Print Assumptions C23_cte_text_chunk_invariant_partial.
+Print Assumptions C23_cte_text_chunk_invariant.
+
+(* PARTIAL: what is proved of [C23_full] is its first half; the full property
+   follows from the decode-and-re-encode half alone. *)
+Theorem C23_full_partial :
+  forall (valid : list event -> Prop) (read : bytes -> option (list event)),
+    (forall c es t, valid es -> cte_encode c es = Some t ->
+                    exists es', read t = Some es' /\ cte_encode c es' = Some t) ->
+    C23_full valid read.
+Proof. exact (fun (valid : list event -> Prop) read H => conj chunk_invariance_holds H). Qed.
+Print Assumptions C23_full_partial.
 
 (* For streams without media / custom-binary arrays the Column hypothesis holds by
    itself, so the statement is unconditional: every typed array, bit array, string,
    resource id, remote reference and custom text, in any delivery. *)
 Theorem C23_cte_text_chunk_invariant_no_media :
   forall c es1 es2,
-    chunk_equiv true es1 es2 -> forallb (fun e => negb (sets_dirty e)) es1 = true ->
+    chunk_equiv es1 es2 -> forallb (fun e => negb (sets_dirty e)) es1 = true ->
     cte_encode c es1 = cte_encode c es2.
 Proof. exact cte_text_chunk_invariant_no_hex. Qed.
 Print Assumptions C23_cte_text_chunk_invariant_no_media.
 
 (* One-sided form: the hypothesis on Column is needed for one of the two streams only. *)
-Theorem C23_cte_text_chunk_invariant_dir_partial :
+Theorem C23_cte_text_chunk_invariant_dir :
   forall c es1 es2 t,
-    chunk_equiv true es1 es2 -> col_clean c es1 = true -> cte_encode c es1 = Some t -> cte_encode c es2 = Some t.
+    chunk_equiv es1 es2 -> col_clean c es1 = true -> cte_encode c es1 = Some t -> cte_encode c es2 = Some t.
 Proof. exact encode_dir. Qed.
-Print Assumptions C23_cte_text_chunk_invariant_dir_partial.
+Print Assumptions C23_cte_text_chunk_invariant_dir.
 
 (* Every delivery of an array, from any encoder state, has the effect of the
    canonical rendering of its contents ([canon]: BeforeValue, header, elements,
    closing bracket / quoted string, AfterValue) up to the engine's scratch
    state and, for media / custom binary, up to Column. *)
-Theorem C23_delivery_canonical_partial :
-  forall c h d g, delivery true h d g -> forall s, oeq (run c s g) (canon c h d s).
+Theorem C23_delivery_canonical :
+  forall c h d g, delivery h d g -> forall s, oeq (run c s g) (canon c h d s).
 Proof. exact delivery_canon. Qed.
-Print Assumptions C23_delivery_canonical_partial.
+Print Assumptions C23_delivery_canonical.
+
+(* The inputs that refuted the property before fix bf83d88 (an empty data event
+   inside a media / custom-binary array) are deliveries of the same data, and the
+   encoder now writes one text for each pair: "@a/b[42]", "@3[35 20]". *)
+Theorem C23_repaired_witnesses :
+  chunk_equiv w_hex_1 w_hex_2 /\ chunk_equiv w_cbin_1 w_cbin_2 /\
+  cte_encode default_ccfg w_hex_1 = cte_encode default_ccfg w_hex_2 /\
+  cte_encode default_ccfg w_cbin_1 = cte_encode default_ccfg w_cbin_2 /\
+  cte_encode default_ccfg w_hex_2 = Some [99; 48; 10; 64; 97; 47; 98; 91; 52; 50; 93] /\
+  cte_encode default_ccfg w_cbin_2 = Some [99; 48; 10; 64; 51; 91; 51; 53; 32; 50; 48; 93].
+Proof.
+  exact (let '(conj a (conj b (conj c d))) := w_repaired_texts in
+         conj w_hex_equiv (conj w_cbin_equiv (conj (eq_trans a (eq_sym b)) (conj (eq_trans c (eq_sym d)) (conj b d))))).
+Qed.
+Print Assumptions C23_repaired_witnesses.
 
 (* The array engine's carry-over law (encoder_array.go AddArrayData): one data
    event on an open numeric array writes exactly the elements completed by
@@ -115,7 +134,7 @@ Print Assumptions C23_bit_array_data.
    that satisfy the hypothesis of the main theorem, so for every such generated
    pair the equality of the two model texts is a consequence of the theorem. *)
 Theorem C23_generated_pairs_are_equivalent :
-  forall segs, forallb seg_okb segs = true -> chunk_equiv true (segs_events true segs) (segs_events false segs).
+  forall segs, forallb seg_okb segs = true -> chunk_equiv (segs_events true segs) (segs_events false segs).
 Proof. exact segs_equiv. Qed.
 Print Assumptions C23_generated_pairs_are_equivalent.
 
@@ -125,7 +144,7 @@ Print Assumptions C23_generated_pairs_are_equivalent.
    empty data event and a zero-length chunk -- satisfies every hypothesis of the
    main theorem, and the encoder does produce text for it. *)
 Example C23_example_hypotheses :
-  chunk_equiv true ex_whole ex_chunked /\
+  chunk_equiv ex_whole ex_chunked /\
   col_clean default_ccfg ex_whole = true /\ col_clean default_ccfg ex_chunked = true /\
   cte_encode default_ccfg ex_whole <> None.
 Proof. exact (conj ex_equiv (conj (proj1 ex_clean) (conj (proj2 ex_clean) (proj2 ex_text)))). Qed.
